@@ -14,7 +14,8 @@
    (also min > max, min = max); the 65535-per-part clamp and the mod 2^16 stores are in the model. *)
 From Coq Require Import ZArith QArith Qround Qabs List Lia.
 From MptV Require Import C18.LinepartModel C18.LinepartSpec C18.LinepartCode C18.LinepartLocal
-  C18.LinepartGlobal C18.LinepartRound C18.LinepartMerge.
+  C18.LinepartGlobal C18.LinepartRound C18.LinepartMerge C18.LinepartDims C18.LinepartPoints2 C18.LinepartKeeps
+  C18.PolylineModel C18.PolylineSpec C18.PolylineSegs C18.PolylineProofs C18.PolylineDims.
 Import ListNotations.
 Local Open Scope Z_scope.
 
@@ -119,6 +120,104 @@ Theorem C18_code_agrees_small_dyadic :
     wrap16 (linepart_code y) = code_spec x /\ wrap16 (linepart_code y) = edge_code r o v.
 Proof. exact code_agrees_small_dyadic. Qed.
 
+(* ---- mpt++/polyline.cpp and the rest of mpt++/linepart.cpp ---- *)
+
+(* a FURTHER dimension (linepart::array::apply on an existing part list, as patched, see LinepartModel.v): for any
+   list of records (two uint16 counters each) and any amount of data - more or less than the parts cover - the loop
+   ends with the fuel |data| + |parts|, never reads outside the data, and the new list covers exactly the points
+   the old one covered ("joining parts never changes the total number of points covered") *)
+Theorem C18_further_dimension_covers :
+  forall r olds data, Forall wfp olds ->
+    exists ps, apply olds r data = Done ps /\
+      (olds <> [] -> sum_raw ps = sum_raw olds) /\ (olds = [] -> sum_raw ps = zlen data).
+Proof. exact apply_total. Qed.
+
+(* the same loop, point by point, for a dimension that has a value for every point the records cover ([fits]:
+   no record draws behind the data; [wfo]: 1 <= raw, usr <= raw + 1): it never makes a point visible that was not,
+   a point that was drawn by exactly one record and is in range in the new dimension is again drawn exactly once,
+   and a point that is interior out of range in the new dimension is drawn by no record *)
+Theorem C18_further_dimension_points :
+  forall r olds data ps,
+    Forall wfo olds -> olds <> [] -> sum_raw olds <= zlen data -> fits data 0 olds ->
+    apply olds r data = Done ps ->
+    sum_raw ps = sum_raw olds /\
+    forall i, 0 <= i ->
+      (draw_count 0 olds i = 0 -> draw_count 0 ps i = 0) /\
+      (draw_count 0 olds i = 1 -> inr r (zn data i) -> draw_count 0 ps i = 1) /\
+      (interior_out r data i -> draw_count 0 ps i = 0).
+Proof. exact apply_points2. Qed.
+
+(* the part list polyline::set computes from TWO stores of doubles (set(n), apply(dimension 0), apply(dimension 1);
+   the second store has at least as many values as the first): it ends without reading outside either array, covers
+   the n points of the first store, a point in range in BOTH dimensions is drawn exactly once, a point interior out
+   of range in ONE of them is not drawn *)
+Theorem C18_polyline_two_dimensions :
+  forall r0 d0 r1 d1, d0 <> [] -> zlen d0 <= zlen d1 ->
+    exists ps, vis_loop_stores 0 (set_parts (zlen d0)) [SData r0 d0; SData r1 d1] = Done ps /\
+      sum_raw ps = zlen d0 /\
+      forall i, 0 <= i < zlen d0 ->
+        (inr r0 (zn d0 i) -> inr r1 (zn d1 i) -> draw_count 0 ps i = 1) /\
+        (interior_out r0 d0 i \/ interior_out r1 d1 i -> draw_count 0 ps i = 0).
+Proof. exact two_dimensions. Qed.
+
+(* ... and from THREE stores (all the transformation has dimensions for): the records the second dimension hands on are
+   again well formed and stay within the n points (LinepartKeeps.v), so the same step applies once more *)
+Theorem C18_polyline_three_dimensions :
+  forall r0 d0 r1 d1 r2 d2, d0 <> [] -> zlen d0 <= zlen d1 -> zlen d0 <= zlen d2 ->
+    exists ps, vis_loop_stores 0 (set_parts (zlen d0)) [SData r0 d0; SData r1 d1; SData r2 d2] = Done ps /\
+      sum_raw ps = zlen d0 /\
+      forall i, 0 <= i < zlen d0 ->
+        (inr r0 (zn d0 i) -> inr r1 (zn d1 i) -> inr r2 (zn d2 i) -> draw_count 0 ps i = 1) /\
+        (interior_out r0 d0 i \/ interior_out r1 d1 i \/ interior_out r2 d2 i -> draw_count 0 ps i = 0).
+Proof. exact three_dimensions. Qed.
+
+(* every part of set(n)+apply() (joins included), at its position: it consumes at least one point, draws only
+   points that exist (pos + usr <= n, usr <= 65535), a part with a cut or trim fraction draws at least two points,
+   and the fractions are those of the first / last segment ([head_ok], [tail_ok] = the statement of
+   C18_cut_trim_precision for this path) *)
+Theorem C18_set_apply_parts :
+  forall r data ps, run_merged r data = Done ps ->
+    sum_raw ps = zlen data /\ forall pos p, In (pos, p) (placed 0 ps) -> seg_ok r data pos p.
+Proof. exact merged_parts. Qed.
+
+(* polyline::set(transform, {one store of doubles}) on ANY polyline (used or not): it never reads outside the
+   data (no SetFault) and ends (no SetStall); the parts are those of set(n)+apply(); it fails exactly when nothing is
+   drawn; otherwise the point array is, point for point, what PolylineSpec.v asks for ([drawn_values]: the data
+   value itself, or the point at the decoded fraction on the first / last segment), x from the data, y = 0 *)
+Theorem C18_polyline_one_dimension :
+  forall st r data, data <> [] ->
+    exists ps, run_merged r data = Done ps /\ segs_ok r data 0 ps /\ sum_raw ps = zlen data /\
+      ((sum_usr ps = 0 /\ polyline_set st [SData r data] = SetOk false (mkps ps [])) \/
+       (0 < sum_usr ps /\ exists pts, polyline_set st [SData r data] = SetOk true (mkps ps pts) /\
+          Forall2 point_is pts (drawn_values data 0 ps))).
+Proof. exact polyline_set_one. Qed.
+
+(* "the stored cut/trim fractions reproduce, to the precision of their 16-bit encoding, where the line crosses the
+   range boundary", at the level of the points: the first point of a part with a cut fraction (the last point of a
+   part with a trim fraction) lies within 2^-16 of the segment length of the boundary the segment crosses *)
+Theorem C18_polyline_clip_on_boundary :
+  forall rg data ps, run_merged (Some rg) data = Done ps ->
+    forall pos p, In (pos, p) (placed 0 ps) ->
+      seg_ok (Some rg) data pos p /\
+      (cut p <> 0 ->
+         edge_ok rg (zn data pos) (zn data (pos + 1)) (cut p) /\
+         (Qabs (drawn_value data pos p 0 - bound_of rg (zn data pos))
+          <= Qabs (zn data (pos + 1) - zn data pos) * (1 # 65536))%Q) /\
+      (trim p <> 0 ->
+         edge_ok rg (zn data (pos + usr p - 1)) (zn data (pos + usr p - 2)) (trim p) /\
+         (Qabs (drawn_value data pos p (usr p - 1) - bound_of rg (zn data (pos + usr p - 1)))
+          <= Qabs (zn data (pos + usr p - 2) - zn data (pos + usr p - 1)) * (1 # 65536))%Q).
+Proof. exact merged_clip. Qed.
+
+(* the part iterator (begin / end / ++ / * / line() / points()): it ends, the lines tile the point array in the order
+   of the parts (offset = sum of usr before, length = usr), points() is the line without clipped ends and never
+   underflows; parts it does not reach draw nothing *)
+Theorem C18_polyline_iterator :
+  forall r data ps pl, run_merged r data = Done ps -> Z.of_nat (length pl) = sum_usr ps ->
+    exists k vs, polyline_walk (mkps ps pl) = WDone vs /\
+      map view_tuple vs = views_of 0 (firstn k ps) /\ Forall (fun p => usr p = 0) (skipn k ps).
+Proof. exact polyline_walk_one. Qed.
+
 (* ---- non-vacuity ---- *)
 Definition r13 : range := mkrange (1 # 1) (3 # 1).
 Definition d7 : list Q := [0 # 1; 2 # 1; 5 # 1; 6 # 1; 5 # 2; 3 # 1; 4 # 1]%Q.
@@ -171,6 +270,65 @@ Example C18_rounding_hypotheses_example :
   (Qabs (x - x) <= x * (1 # two53))%Q /\ (forall k, 0 <= k <= 65536 -> (x == k # 65536)%Q -> (x == x)%Q).
 Proof. split; [vm_compute; discriminate|reflexivity]. Qed.
 
+(* polyline::set on the example: two parts, seven points; the clipped points 1, 98305/32768 (max = 3 + 2^-15
+   outside), 393221/131072, 196609/65536 lie within 2^-16 * segment length of the boundary *)
+Example C18_polyline_example :
+  exists st, polyline_set (mkps [] []) [SData (Some r13) d7] = SetOk true st /\
+    vis st = [mkpart 3 3 32768 43690; mkpart 4 4 56173 65535] /\
+    map (fun p => (Qred (fst p), Qred (snd p))) (pts st) =
+      [(1 # 1, 0 # 1); (2 # 1, 0 # 1); (98305 # 32768, 0 # 1); (393221 # 131072, 0 # 1); (5 # 2, 0 # 1);
+       (3 # 1, 0 # 1); (196609 # 65536, 0 # 1)]%Q /\
+    map Qred (drawn_values d7 0 (vis st)) =
+      [1 # 1; 2 # 1; 98305 # 32768; 393221 # 131072; 5 # 2; 3 # 1; 196609 # 65536]%Q.
+Proof. eexists. split; [vm_compute; reflexivity|]. vm_compute. repeat split; reflexivity. Qed.
+
+Example C18_polyline_walk_example :
+  polyline_walk (mkps [mkpart 3 3 32768 43690; mkpart 4 4 56173 65535] (repeat (0 # 1, 0 # 1)%Q 7))
+  = WDone [mkview 0 3 1 1; mkview 3 4 4 2] /\
+  views_of 0 [mkpart 3 3 32768 43690; mkpart 4 4 56173 65535] = [(0, 3, 1, 1); (3, 4, 4, 2)].
+Proof. vm_compute. split; reflexivity. Qed.
+
+(* a second dimension: the trim of the old part (49152, its 5th point) is NOT taken over by a new part that ends
+   earlier (on the 3rd point); less data than the parts cover: the rest is kept as covered, nothing drawn;
+   a store without doubles between two usable ones is skipped and the third dimension still limits the line *)
+Example C18_further_dimension_example :
+  apply [mkpart 5 5 0 49152] (Some r13) [2 # 1; 2 # 1; 0 # 1; 0 # 1; 0 # 1]%Q = Done [mkpart 5 3 0 32768] /\
+  apply [mkpart 3 3 0 0; mkpart 5 5 0 0] None [2 # 1; 2 # 1; 0 # 1]%Q = Done [mkpart 8 3 0 0] /\
+  wfp (mkpart 5 5 0 49152) /\
+  exists st, polyline_set (mkps [] []) [SData None [1 # 1; 2 # 1]%Q; SNone; SData (Some r13) [0 # 1; 2 # 1]%Q] = SetOk true st /\
+    vis st = [mkpart 2 2 32768 0] /\
+    map (fun p => (Qred (fst p), Qred (snd p))) (pts st) = [(5 # 2, 1 # 1); (4 # 1, 2 # 1)]%Q.
+Proof.
+  split; [vm_compute; reflexivity|]. split; [vm_compute; reflexivity|]. split; [unfold wfp; cbn; lia|].
+  eexists. split; [vm_compute; reflexivity|]. vm_compute. split; reflexivity.
+Qed.
+
+(* two ranged dimensions: x leaves its range at the 5th point, y at the 3rd: one part of 3 drawn points whose trim is
+   that of y's crossing; points 0 and 1 are in range in both, point 3 is interior out of range in y *)
+Example C18_two_dimensions_example :
+  let x := [2 # 1; 2 # 1; 2 # 1; 2 # 1; -2 # 1]%Q in
+  let y := [2 # 1; 2 # 1; 0 # 1; 0 # 1; 0 # 1]%Q in
+  vis_loop_stores 0 (set_parts 5) [SData (Some r13) x; SData (Some r13) y] = Done [mkpart 5 3 0 32768] /\
+  map (draw_count 0 [mkpart 5 3 0 32768]) [0; 1; 2; 3; 4] = [1; 1; 1; 0; 0] /\
+  interior_out (Some r13) y 3 /\ wfo (mkpart 5 5 0 49152) /\ fits y 0 [mkpart 5 5 0 49152].
+Proof.
+  cbv zeta. split; [vm_compute; reflexivity|]. split; [vm_compute; reflexivity|].
+  split; [unfold interior_out, inr; vm_compute; repeat split; intros; discriminate|].
+  split; [unfold wfo; cbn; lia|]. constructor; [cbn; lia|constructor].
+Qed.
+
+Example C18_three_dimensions_example :
+  let x := [0 # 1; 2 # 1; 2 # 1; 2 # 1; 2 # 1]%Q in
+  let y := [2 # 1; 2 # 1; 2 # 1; 4 # 1; 4 # 1]%Q in
+  let z := [2 # 1; 2 # 1; 2 # 1; 2 # 1; 2 # 1; 9 # 1]%Q in
+  vis_loop_stores 0 (set_parts 5) [SData (Some r13) x; SData (Some r13) y; SData None z]
+    = Done [mkpart 4 4 32768 32768; mkpart 1 0 0 0] /\
+  map (draw_count 0 [mkpart 4 4 32768 32768; mkpart 1 0 0 0]) [0; 1; 2; 3; 4] = [1; 1; 1; 1; 0] /\ interior_out (Some r13) y 4.
+Proof.
+  cbv zeta. split; [vm_compute; reflexivity|]. split; [vm_compute; reflexivity|].
+  unfold interior_out, inr. vm_compute. repeat split; intros; discriminate.
+Qed.
+
 Print Assumptions C18_progress.
 Print Assumptions C18_consumes_each_point_once.
 Print Assumptions C18_in_range_drawn_once.
@@ -183,3 +341,11 @@ Print Assumptions C18_join_draws_union.
 Print Assumptions C18_set_apply_covers_all.
 Print Assumptions C18_set_apply_points.
 Print Assumptions C18_code_agrees_small_dyadic.
+Print Assumptions C18_further_dimension_covers.
+Print Assumptions C18_set_apply_parts.
+Print Assumptions C18_polyline_one_dimension.
+Print Assumptions C18_polyline_clip_on_boundary.
+Print Assumptions C18_polyline_iterator.
+Print Assumptions C18_further_dimension_points.
+Print Assumptions C18_polyline_two_dimensions.
+Print Assumptions C18_polyline_three_dimensions.
